@@ -51,12 +51,15 @@ CLAIMED["C09"] = (
     "Static must-sync analysis over all paths from every public entry point with a FermionicArray operand: block values of a "
     "possibly-lazy array are only used by sign-equivariant (key-preserving linear), sign-even, or phase-aware constructs, or "
     "after phase_sync on that array; every re-keying of blocks is mirrored on the sign table; signs are consumed exactly once, "
-    "by phase_sync only. Found and fixed two genuine defect groups (eigh/solve; reductions/unary maps/item/expm). BOUNDED CLAIM "
+    "by phase_sync only (R09.6, evaluation: exactly the blocks with a pending -1 are negated, once; the table is emptied; a sign on an "
+    "absent sector is tolerated; idempotent). Found and fixed two genuine defect groups (eigh/solve; reductions/unary maps/item/expm). BOUNDED CLAIM "
     "(R09.5, abstract evaluation): every non-factorising operation — the C01 battery, reductions, elementwise maps, in-place arithmetic, "
     "the interface wrappers, square-matrix operations, and two-step programs whose pending signs arise in the middle — gives the same "
     "observable result on a fermionic token array with pending signs and on its phase_sync()-ed twin (~25000 twin evaluations, quick). "
     "A typestate finding is a candidate: it is dropped (as a note) only when every entry point it derives from was evaluated with pending "
-    "signs through that very statement and the twins agree; otherwise it is reported.",
+    "signs through that very statement, the twins agree, and on the synchronised twin no array in scope there carries pending signs (signs "
+    "produced inside the operation are not what the twins differ in); otherwise it is reported. The factorisations take part in the twins "
+    "up to the declared gauge facts (the sign of a block may sit on Q / U).",
     "Trusts the declared linear-algebra facts (QR/SVD commute with a sign on the left factor; abs is sign even; conj/transpose/"
     "reshape/slicing/scalar multiplication are linear) whose structural side conditions are checked, and numpydoc parameter types. "
     "A refuted candidate is vouched for by the enumerated family only. Does not decide numerical equality itself.",
@@ -75,16 +78,19 @@ CLAIMED["C15"] = (
     "DESIGN.md section 2, C15",
 )
 CLAIMED["C20"] = (
-    "interprocedural provenance (def-use) analysis of allocation dtypes; cast inventory against a confirmed table",
+    "interprocedural provenance (def-use) analysis of allocation dtypes; cast inventory against a confirmed table with a local def-use "
+    "classification of int() arguments; abstract evaluation of the dtype / backend witnesses",
     "Static: every allocation of array data in the package receives its dtype from an existing block (like=<block> on the "
     "ar.do path, dtype=<block>.dtype, or a **kwargs dict whose dtype entry is traced to a block through parameters over all "
-    "call sites); cast-like constructs occur only at confirmed sites; dtype/backend witnesses are read off a stored block. "
+    "call sites); cast-like constructs occur only at confirmed sites (int() of a size, count or flag is recognised wherever it sits); "
+    "R20.3 (evaluation): dtype, backend and get_any_array of an array, a fermionic array and a block vector are what the backend says about "
+    "one of the stored blocks. "
     "This is where an element type can be lost by construction (zero blocks joining data, slice assignment into a default-dtype "
     "buffer). R20.4: no block-wise value operation is gated on the array-level dtype witness (which is read off ONE block; the blocks of "
     "an array can differ in element type after mixed arithmetic).",
     "Does not decide type promotion inside backend arithmetic, nor the dtype of python-scalar results of empty contractions. "
     "Assumes autoray's like= injection on the ar.do path.",
-    "DESIGN.md section 2, C20",
+    "DESIGN.md section 2 (C20), sections 23 and 25",
 )
 
 PARTIAL_NOTE = (" PARTIAL CLAIM: decides the named structural clauses (necessary conditions of the property) for all paths / call "
@@ -99,24 +105,31 @@ CLAIMED["C16"] = (
     "and dicts in any insertion order) cuts out the rows / columns of each charge-conserving sector, and to_dense of that is the "
     "projection reordered by charge. All paths (R16.1-R16.5): no parameter default captures a class-scope descriptor, no parameter is "
     "overwritten before it is read, the classmethod constructors agree on resolver call / charge default / forwarded keywords, the "
-    "fixed-symmetry classes and utils tables agree with the registry. Found and fixed three defects (two failing call forms; the "
+    "fixed-symmetry classes and utils tables agree with the registry (the spelling facts among these - resolver call, charge default, one "
+    "cls(...) call, sorted loop, table literals - are confidence-only behind R16.6-R16.8; signatures, defaults and 'no override' stay hard). "
+    "R16.8: utils.from_dense and utils.get_rand build the class <Symmetry>[Fermionic]Array for all eight (symmetry, fermionic) pairs; each "
+    "fixed-symmetry class resolves to its own symmetry and refuses another. Found and fixed three defects (two failing call forms; the "
     "constructor's charge inference ignoring index directions). " + BOUNDED,
-    "utils.get_rand / rand_index chains are compared as tables only; numerical equality of contents is reduced to token identity.",
-    "DESIGN.md sections 2 and 17, C16",
+    "utils.get_rand is evaluated with explicit charge tables only (its random choice of tables is not); numerical equality of contents is "
+    "reduced to token identity.",
+    "DESIGN.md sections 2, 17, 23 and 25, C16",
 )
 CLAIMED["C08"] = (
     "abstract interpretation of every interface function invoked three ways (function, method, autoray dispatch) over shaped tokens; "
-    "abstract interpretation over the key-set domain; operator table comparison",
+    "abstract interpretation over the key-set domain and of every arithmetic operator against the dense-form reference; operator table "
+    "comparison (confidence only)",
     "Every function of the interface module, invoked as symmray.<name>(...), as the method of the same name and through "
     "ar.do('<name>', ...), gives the same result on an abelian array, a fermionic array with pending signs and (where it has the "
     "method) a block vector; a missing method shows up as the dispatch cycle; each function is exported and registered under its own "
     "name. The blockwise binary operation and multiply_diagonal are abstractly interpreted over key regions {left-only, shared, "
-    "right-only} with token values, giving exactly L / L-union-R / L-intersect-R and fn(left,right) on the shared region; operator "
-    "dunders match the (function, mode, in-place, operand order) table. Found and fixed the log* recursion and the non-commutative "
+    "right-only} with token values, giving exactly L / L-union-R / L-intersect-R and fn(left,right) on the shared region. R08.6: every "
+    "arithmetic operator of arrays and block vectors (in place and not; right operand with the same, fewer and other stored sectors; scalars "
+    "in both orders) gives the block form of the dense result - a missing block is a zero block - or raises (96 evaluations); the textual "
+    "operator table R08.4 only adds confidence. Found and fixed the log* recursion and the non-commutative "
     "product." + PARTIAL_NOTE,
     "Numerical agreement with the dense operation is not decided. Assumes the blockwise code treats keys uniformly; sample operands "
     "per interface function are one abelian, one fermionic, one vector case.",
-    "DESIGN.md sections 2 and 15, C08",
+    "DESIGN.md sections 2, 15 and 25, C08",
 )
 CLAIMED["C10"] = (
     "abstract interpretation of conj / dagger / the norm contraction / two-tensor network norms over shaped tokens; sibling agreement (cross-check) of "
@@ -125,7 +138,9 @@ CLAIMED["C10"] = (
     "signs: conj twice and dagger twice return the original; dagger(phase_dual=p) equals conj(phase_dual=p) followed by the fermionic "
     "reversal for both p; x.conj(phase_dual=p) contracted with x over all axes, in either order and every strategy, is the sum of "
     "tensordot(conj(block), block) over all stored blocks with sign +1 (the squared norm) whenever every index is ket-like or p is "
-    "True. R10.5: for 120 (quick) two-tensor networks <psi|psi> along six routes (contracted array conjugated, tensor by tensor with the "
+    "True. R10.6: conj flips every direction over the same tables, negates the charge, conjugates every block under its own sector; the "
+    "abelian dagger is conj then the full transpose; H = dagger(), T = transpose() (R10.0, the textual version, adds confidence only). "
+    "R10.2-R10.4 also run on arrays carrying three (odd) / two (even) labels. R10.5: for 120 (quick) two-tensor networks <psi|psi> along six routes (contracted array conjugated, tensor by tensor with the "
     "bra-like dangling legs sign-flipped, site by site, ket first, both operand orders) is the same signed sum of products and every "
     "|a b|^2 enters with +1. Confidence only (R10.1, findings become notes): conj and dagger agree on new charge, conjugated labels, odd-global-sign condition, the leg set of the "
     "dual-leg option, and exactly one kind of reversal. Found and fixed the complementary leg set of dagger(phase_dual=True). " + BOUNDED,
@@ -191,9 +206,10 @@ CLAIMED["C19"] = (
     "replaced by a recorder, hands each edge (degree of a, degree of b) and the per-site values in the edge's own order; dict parameters "
     "are looked up by (a,b) then (b,a); the site description gives each bond one index name with directions 0 / 1 and a coordination "
     "that excludes the physical index. " + BOUNDED + PARTIAL_NOTE,
-    "The operator matrices themselves (C18) and the numerical sum over edges are not decided; the quimb-based dense builders (TFIM, "
-    "Heisenberg) are checked textually only.",
-    "DESIGN.md sections 2 and 18, C19",
+    "The operator matrices themselves (C18) and the numerical sum over edges are not decided; the TFIM builder is evaluated with a symbolic "
+    "stand-in for quimb's Pauli matrices (X(x)X carries jx, Z(x)I and I(x)Z that site's field over that site's coordination, nothing else); "
+    "the Heisenberg builder has no per-site terms to over-count.",
+    "DESIGN.md sections 2, 18 and 25, C19",
 )
 CLAIMED["C04"] = (
     "exhaustive abstract evaluation of the label comparison over order types and of the label merge on small label lists; path rule "
@@ -220,13 +236,13 @@ CLAIMED["C18"] = (
     "sign) on the operator sort; abstract interpretation of the assembly and of every model builder for every supported symmetry",
     "R18.4 (exhaustive over its domain): for every operator string of length <= 3 (4 thorough) over two set-ups the computed elements "
     "equal the vacuum expectation values <0| bra-basis† term ket-basis |0> given by the CAR, are linear in the coefficients and drop "
-    "zero coefficients. R18.1 (all paths): an adjacent exchange in the phased sort costs exactly one sign. R18.3 (evaluation): the "
+    "zero coefficients. R18.1 (path rule on the sort loop, confidence only behind R18.4): an adjacent exchange costs exactly one sign. R18.3 (evaluation): the "
     "assembly hands from_dense ket legs then bra legs, the index maps doubled, fermionic=True; the dense operator has one axis per "
     "basis twice; each of the five model builders, for each symmetry it supports, passes one index map per basis, and every basis state "
     "is mapped to its parity (Z2), particle number (U1) or (up, down) occupation (Z2Z2 / U1U1); unknown symmetries are refused. " + PARTIAL_NOTE,
     "Hermiticity, spectra and operator composition are not decided; R18.2 (textual form of the bra-basis construction) degrades to a note "
     "when the form changes, its behaviour being decided by R18.4.",
-    "DESIGN.md sections 2 and 18, C18",
+    "DESIGN.md sections 2, 18 and 25, C18",
 )
 CLAIMED["C03"] = (
     "abstract interpretation of transposes and contractions over shaped tokens compared with the checker's own graded (Koszul) sign "
